@@ -178,7 +178,10 @@ pub fn c09(args: &Args) {
         out.emit(ber_event(x, ccs, b, "random"));
     }
     // --- sampler_z: grid of centres and widths, random and structured streams
-    let mus: Vec<f64> = vec![0.0, 0.5, -0.5, 0.999999, -0.000001, 1.0, -1.0, 7.25, -7.75, 100.3, -91.90471153063714, 16383.5, -16383.5, 0.1, 3.0e-300];
+    // (the result type is i16: centres whose floor plus a sample in [-18, 19] leaves the i16 range are outside what any
+    // implementation with this signature can return; the grid goes up to that edge)
+    let mus: Vec<f64> = vec![0.0, 0.5, -0.5, 0.999999, -0.000001, 1.0, -1.0, 7.25, -7.75, 100.3, -91.90471153063714, 16383.5, -16383.5, 0.1, 3.0e-300,
+                             8192.75, -12000.001, 20000.25, 32748.5, -32749.5, -1.0000000000000002, -0.9999999999999999, 4.999999999999999, -1e-17];
     let sigmas: Vec<(f64, f64)> = vec![(SIGMIN512, SIGMIN512), (1.5, SIGMIN512), (1.7037990414754918, 1.277833697), (1.8205, SIGMIN512),
                                       (SIGMIN1024, SIGMIN1024), (1.75, SIGMIN1024), (1.8205, SIGMIN1024), (1.43300980528773, 1.43200980528773)];
     let reps = if thorough { 40 } else { 3 };
@@ -234,6 +237,57 @@ pub fn c09(args: &Args) {
                 s.extend([0u8; 7]);
                 s.extend(vec![0u8; 17 * 6]);
                 out.emit(sampler_event(0.25, sg, smin, s, &format!("forced-z0-{}", i + 1)));
+            }
+        }
+    }
+    // long runs of rejections: a stream that never accepts must be consumed to its end, however long (an iteration cap, a
+    // watchdog, a counter of narrow type)
+    for &(sg, smin) in &[sigmas[1], sigmas[6]] {
+        for &iters in &(if thorough { vec![16usize, 64, 256, 1024, 4117] } else { vec![64usize, 300, 1024] }) {
+            out.emit(sampler_event(0.4, sg, smin, vec![255u8; 17 * iters], "stream-ff-long"));
+        }
+    }
+    // near-threshold Bernoulli bytes inside sampler_z: first iteration with z0 and b forced, the seven bytes tied with the
+    // threshold on their first k bytes and one off at byte k (both ways); then zeros.  A small distortion of x or ccs inside the
+    // sampler flips these verdicts although it is far below the resolution of a histogram.
+    for &(sg, smin) in &sigmas[..6] {
+        for &mu in &[0.0f64, 0.37, -0.62, 1234.9] {
+            for z0 in 0..(if thorough { 6usize } else { 4 }) {
+                for bit in [0u8, 1] {
+                    let isigma = 1.0 / sg;
+                    let dss = 0.5 * isigma * isigma;
+                    let r = mu - mu.floor();
+                    let b = bit as f64;
+                    let z = b + (2.0 * b - 1.0) * z0 as f64;
+                    let x = (z - r) * (z - r) * dss - (z0 * z0) as f64 / (2.0 * 1.8205 * 1.8205);
+                    if x < 0.0 {
+                        continue;
+                    }
+                    let zb = z_of(x, smin * isigma).to_be_bytes();
+                    for &k in &[1usize, 3, 6] {
+                        for delta in [-1i32, 1] {
+                            if !thorough && (k + z0 + bit as usize) % 2 == (delta == 1) as usize {
+                                continue;
+                            }
+                            let v = zb[k] as i32 + delta;
+                            if !(0..=255).contains(&v) {
+                                continue;
+                            }
+                            let u = if z0 == 0 { (1u128 << 72) - 1 } else { RCDT[z0 - 1] - 1 };
+                            let mut s = u72_bytes(u).to_vec();
+                            s.push(bit);
+                            let mut bb = [0u8; 7];
+                            bb[..k].copy_from_slice(&zb[..k]);
+                            bb[k] = v as u8;
+                            for j in k + 1..7 {
+                                bb[j] = if delta < 0 { 255 } else { 0 };
+                            }
+                            s.extend(bb);
+                            s.extend(vec![0u8; 17 * 6]);
+                            out.emit(sampler_event(mu, sg, smin, s, "near-threshold"));
+                        }
+                    }
+                }
             }
         }
     }
